@@ -1,7 +1,8 @@
 /-
 C17 for `HollowPlanar3DCode`, ALL sizes of the supported family (`Lx, Ly, Lz ≥ 1`, no upper bound):
-the TRUE code distance for every size, what `code.d` reports for every size, and exactly when the
-two agree.
+the true code distance for every size, what `code.d` reports for every size, and that the two agree
+for every size — since the repair of `get_logicals_z` (below); the behaviour before the repair is
+kept as regression theorems.
 
 The matrices are the ones the generic code model assembles from the hand-written lattice model
 `Model/Lattices/HollowPlanar3DCode.lean` (tied to `panqec/codes/surface_3d/_hollow_planar_3d_code.py`
@@ -9,28 +10,32 @@ by the correspondence streams of `harness/lattices/hollowplanar3dcode.py`); they
 `[[n, 1]]` code for every size (`C01HollowPlanar3DCode.valid_code`).
 
 * `reported_distance` — `code.d` (the minimum Pauli weight over the rows of `logicals_x` and
-  `logicals_z`, as `StabilizerCode.d` computes it) is `min Lx (Ly·Lz)`: the listed logical X is a
-  line of `Lx` x-edges, the listed logical Z the FULL plane `x = 1` of `Ly·Lz` x-edges
-  (`weights_listed`) — the hole never reaches `x = 1`.
-* `distance` — the true distance is `min Lx (wZ Lx Ly Lz)` where `wZ` is the number of x-edges left
-  in a cross-section through the hole: `wZ = Ly·Lz − (Ly − 2)(Lz − 2)` (truncated subtractions) when
-  `Lx ≥ 3`, `Ly·Lz` otherwise (`wZ_hole`: `2·Ly + 2·Lz − 4` when the hole is there).  Lower bound
-  (`lower_bound`): packing — the X line has one translate per x line that misses the hole (moved
-  through rows of face generators that miss the hole: along `z` when `y` is outside the y-range of
-  the hole, along `y` when `z` is outside its z-range), the Z plane has the `Lx` translates "existing
-  x-edges of the cross-section `x = 2i + 1`" (a vertex location in the hole has no generator, but
-  then none of its neighbours is a qubit).  Upper bound: the listed X line, or — `light_membrane` —
-  the cross-section `x = 3`, which IS a non-trivial logical operator (same parities as the listed
-  plane against everything commuting with the generators) of weight `wZ`.
-* `distance_reported` — `code.d` is the true distance whenever `Lx ≤ 2` or `Ly ≤ 2` or `Lz ≤ 2` or
-  `Lx ≤ 2·Ly + 2·Lz − 4`.
-* `reported_distance_wrong` — **FINDING**: for `Ly, Lz ≥ 3` and `Lx > 2·Ly + 2·Lz − 4` (from
-  `HollowPlanar3DCode(9, 3, 3)` on) `code.d = min Lx (Ly·Lz)` is NOT the code distance: the true
-  distance is `2·Ly + 2·Lz − 4`, smaller.  Observed on the real class:
+  `logicals_z`, as `StabilizerCode.d` computes it) is `min Lx (wZ Lx Ly Lz)`: the listed logical X
+  is a line of `Lx` x-edges, the listed logical Z the existing x-edges of the cross-section `x = 3`
+  when `Lx ≥ 3` (the membrane through the cavity), of the plane `x = 1` otherwise
+  (`weights_listed`); `wZ` is the number of x-edges left in a cross-section through the hole:
+  `wZ = Ly·Lz − (Ly − 2)(Lz − 2)` (truncated subtractions) when `Lx ≥ 3`, `Ly·Lz` otherwise
+  (`wZ_hole`: `2·Ly + 2·Lz − 4` when the hole is there, `wZ_nohole`).
+* `distance` — the true distance is `min Lx (wZ Lx Ly Lz)`.  Lower bound (`lower_bound`): packing —
+  the X line has one translate per x line that misses the hole (moved through rows of face
+  generators that miss the hole: along `z` when `y` is outside the y-range of the hole, along `y`
+  when `z` is outside its z-range), the Z membrane has the `Lx` translates "existing x-edges of the
+  cross-section `x = 2i + 1`" (a vertex location in the hole has no generator, but then none of its
+  neighbours is a qubit).  Upper bound: the listed X line or the listed Z membrane.
+* `distance_reported` — **C17 for every size `Lx, Ly, Lz ≥ 1`**: `code.d` exists and IS the true
+  distance.
+* `light_membrane` — for `Lx ≥ 3` the cross-section `x = 3` is a non-trivial logical operator of
+  weight `wZ` (it is the listed logical Z now).
+* REGRESSION (`old_reported_distance`, `old_reported_distance_wrong`, `old_distance_reported`): the
+  code before the repair listed the FULL end plane `x = 1` as logical Z
+  (`HollowPlanar3DCode.oldLogZ`, `oldLattice`; the hole never reaches `x = 1`), so `code.d` was
+  `min Lx (Ly·Lz)`, which for `Ly, Lz ≥ 3` and `Lx > 2·Ly + 2·Lz − 4` (from
+  `HollowPlanar3DCode(9, 3, 3)` on) is NOT the code distance: the true distance is
+  `2·Ly + 2·Lz − 4`, smaller.  Observed on the class before the repair:
   `HollowPlanar3DCode(9, 3, 3)`: `n = 146`, `k = 1`, `code.d == 9`; the operator Z on the 8 qubits
-  `(3, y, z)`, `(y, z) ∈ {0, 2, 4}² \ {(2, 2)}`, commutes with all 154 generators (`in_codespace` True, `is_logical_error` True) and anticommutes with
-  the listed logical X.  (The listed logical Z is the end plane `x = 1`; the lightest membrane lives
-  in the tube.)
+  `(3, y, z)`, `(y, z) ∈ {0, 2, 4}² \ {(2, 2)}`, commutes with all 154 generators (`in_codespace`
+  True, `is_logical_error` True) and anticommutes with the listed logical X.  The repair puts the
+  listed logical Z on that cross-section.
 * the class offers no deformation (`C01HollowPlanar3DCode.deformation_rule`: `get_deformation`
   never returns a map, `deformation_names = []`), so there is no deformed code to cover.
 -/
@@ -51,18 +56,19 @@ theorem qubits_length (Lx Ly Lz : Nat) : (qubits Lx Ly Lz).length = nq Lx Ly Lz 
   simp only [Lattice.toCodeData, CodeData.n, lattice_qubits] at h
   exact h
 
-/-- the row of `logicals_x` has Pauli weight `Lx` (a line), the row of `logicals_z` weight `Ly·Lz`
-    (the full plane `x = 1`) — every `Lx, Ly, Lz ≥ 1` -/
+/-- the row of `logicals_x` has Pauli weight `Lx` (a line), the row of `logicals_z` weight
+    `wZ Lx Ly Lz` (the existing x-edges of the cross-section `x = 3` when `Lx ≥ 3`, the full plane
+    `x = 1` otherwise) — every `Lx, Ly, Lz ≥ 1` -/
 theorem weights_listed (Lx Ly Lz : Nat) (hLx : 1 ≤ Lx) (hLy : 1 ≤ Ly) (hLz : 1 ≤ Lz) :
     (lattice Lx Ly Lz).rowsX.map pauliWeight = [Lx] ∧
-    (lattice Lx Ly Lz).rowsZ.map pauliWeight = [Ly * Lz] :=
+    (lattice Lx Ly Lz).rowsZ.map pauliWeight = [wZ Lx Ly Lz] :=
   HollowPlanar3DCode.weights_listed (C01HollowPlanar3DCode.wf Lx Ly Lz hLx hLy hLz)
 
 /-- what `code.d` returns — the minimum weight over the listed logical operators — is
-    `min Lx (Ly·Lz)`, every `Lx, Ly, Lz ≥ 1` -/
+    `min Lx (wZ Lx Ly Lz)`, every `Lx, Ly, Lz ≥ 1` -/
 theorem reported_distance (Lx Ly Lz : Nat) (hLx : 1 ≤ Lx) (hLy : 1 ≤ Ly) (hLz : 1 ≤ Lz) :
     Panqec.distance (lattice Lx Ly Lz).rowsX (lattice Lx Ly Lz).rowsZ =
-      some (min Lx (Ly * Lz)) :=
+      some (min Lx (wZ Lx Ly Lz)) :=
   HollowPlanar3DCode.reported_distance (C01HollowPlanar3DCode.wf Lx Ly Lz hLx hLy hLz)
 
 /-- the weight of the lightest membrane when the hole is there: `2·Ly + 2·Lz − 4` -/
@@ -98,9 +104,9 @@ theorem lower_bound (Lx Ly Lz : Nat) (hLx : 1 ≤ Lx) (hLy : 1 ≤ Ly) (hLz : 1 
   HollowPlanar3DCode.lower_bound (C01HollowPlanar3DCode.wf Lx Ly Lz hLx hLy hLz)
     (qubits_length Lx Ly Lz) (C01HollowPlanar3DCode.valid_code Lx Ly Lz hLx hLy hLz).2.2.2
 
-/-- for `Lx ≥ 3` the Z operator on the existing x-edges of the cross-section `x = 3` is a
-    non-trivial logical operator of weight `wZ Lx Ly Lz` — lighter than the listed logical Z as soon
-    as `Ly, Lz ≥ 3` -/
+/-- for `Lx ≥ 3` the Z operator on the existing x-edges of the cross-section `x = 3` — the listed
+    logical Z since the repair — is a non-trivial logical operator of weight `wZ Lx Ly Lz`, lighter
+    than the full end plane as soon as `Ly, Lz ≥ 3` -/
 theorem light_membrane (Lx Ly Lz : Nat) (hLx : 3 ≤ Lx) (hLy : 1 ≤ Ly) (hLz : 1 ≤ Lz) :
     IsNontrivialLogical (nq Lx Ly Lz) (lattice Lx Ly Lz).rowsH
       (opRow (lattice Lx Ly Lz).qubits (uop (crossX Lx Ly Lz 1) Pauli.Z)) ∧
@@ -112,22 +118,60 @@ theorem light_membrane (Lx Ly Lz : Nat) (hLx : 3 ≤ Lx) (hLy : 1 ≤ Ly) (hLz :
     (by omega), ?_⟩
   rw [cross_weight hwf (by omega), length_crossX_one]
 
+/-- every cross-section `x = 2i + 1` (`i < Lx`) of existing x-edges, as a Z operator, is a
+    non-trivial logical operator (the translates of the listed logical Z used by the packing bound) -/
+theorem membrane (Lx Ly Lz : Nat) (hLx : 1 ≤ Lx) (hLy : 1 ≤ Ly) (hLz : 1 ≤ Lz) (i : Nat)
+    (hi : i < Lx) :
+    IsNontrivialLogical (nq Lx Ly Lz) (lattice Lx Ly Lz).rowsH
+      (opRow (lattice Lx Ly Lz).qubits (uop (crossX Lx Ly Lz i) Pauli.Z)) :=
+  cross_nontrivial (C01HollowPlanar3DCode.wf Lx Ly Lz hLx hLy hLz)
+    (C01HollowPlanar3DCode.commPair Lx Ly Lz hLx hLy hLz) (qubits_length Lx Ly Lz)
+    (C01HollowPlanar3DCode.valid_code Lx Ly Lz hLx hLy hLz).2.2.2 hi
+
 /-- THE TRUE DISTANCE FOR ALL SIZES (`Lx, Ly, Lz ≥ 1`): the code distance of the `Lx × Ly × Lz`
     hollow planar code — the minimum weight of a non-trivial logical operator of the assembled
     parity-check matrix — is `min Lx (wZ Lx Ly Lz)` -/
 theorem distance (Lx Ly Lz : Nat) (hLx : 1 ≤ Lx) (hLy : 1 ≤ Ly) (hLz : 1 ≤ Lz) :
     IsDistance (nq Lx Ly Lz) (lattice Lx Ly Lz).rowsH (min Lx (wZ Lx Ly Lz)) :=
-  true_distance (C01HollowPlanar3DCode.wf Lx Ly Lz hLx hLy hLz)
-    (C01HollowPlanar3DCode.commPair Lx Ly Lz hLx hLy hLz) (qubits_length Lx Ly Lz)
+  true_distance (C01HollowPlanar3DCode.wf Lx Ly Lz hLx hLy hLz) (qubits_length Lx Ly Lz)
     (C01HollowPlanar3DCode.valid_code Lx Ly Lz hLx hLy hLz).2.2.2
 
-/-- THE C17 STATEMENT wherever it holds: if `Lx ≤ 2`, `Ly ≤ 2`, `Lz ≤ 2` or `Lx ≤ 2·Ly + 2·Lz − 4`,
-    the reported distance exists and is the true distance -/
-theorem distance_reported (Lx Ly Lz : Nat) (hLx : 1 ≤ Lx) (hLy : 1 ≤ Ly) (hLz : 1 ≤ Lz)
-    (h : Lx ≤ 2 ∨ Ly ≤ 2 ∨ Lz ≤ 2 ∨ Lx ≤ 2 * Ly + 2 * Lz - 4) :
+/-- **THE C17 STATEMENT, every size `Lx, Ly, Lz ≥ 1`** (no side condition): the reported distance
+    exists and is the true distance -/
+theorem distance_reported (Lx Ly Lz : Nat) (hLx : 1 ≤ Lx) (hLy : 1 ≤ Ly) (hLz : 1 ≤ Lz) :
     ∃ d, Panqec.distance (lattice Lx Ly Lz).rowsX (lattice Lx Ly Lz).rowsZ = some d ∧
-      IsDistance (nq Lx Ly Lz) (lattice Lx Ly Lz).rowsH d := by
-  refine ⟨_, reported_distance Lx Ly Lz hLx hLy hLz, ?_⟩
+      IsDistance (nq Lx Ly Lz) (lattice Lx Ly Lz).rowsH d :=
+  ⟨_, reported_distance Lx Ly Lz hLx hLy hLz, distance Lx Ly Lz hLx hLy hLz⟩
+
+/-- the reported (= true) distance in closed form: `min Lx (2·Ly + 2·Lz − 4)` when the cavity
+    exists (`Lx, Ly, Lz ≥ 3`), `min Lx (Ly·Lz)` otherwise -/
+theorem reported_distance_formula (Lx Ly Lz : Nat) (hLx : 1 ≤ Lx) (hLy : 1 ≤ Ly) (hLz : 1 ≤ Lz) :
+    Panqec.distance (lattice Lx Ly Lz).rowsX (lattice Lx Ly Lz).rowsZ =
+      some (if 3 ≤ Lx ∧ 3 ≤ Ly ∧ 3 ≤ Lz then min Lx (2 * Ly + 2 * Lz - 4) else min Lx (Ly * Lz)) := by
+  rw [reported_distance Lx Ly Lz hLx hLy hLz]
+  split
+  · next h => rw [wZ_hole Lx Ly Lz h.1 (by omega) (by omega)]
+  · next h => rw [wZ_nohole Lx Ly Lz (by omega)]
+
+/-! ### regression: the code before the repair of `get_logicals_z` (former finding)
+
+`oldLattice` = the same qubits and generators with the logical Z the class listed before the repair,
+the full end plane `x = 1` (`HollowPlanar3DCode.oldLogZ`). -/
+
+/-- before the repair `code.d` was `min Lx (Ly·Lz)`, every `Lx, Ly, Lz ≥ 1` -/
+theorem old_reported_distance (Lx Ly Lz : Nat) (hLx : 1 ≤ Lx) (hLy : 1 ≤ Ly) (hLz : 1 ≤ Lz) :
+    Panqec.distance (oldLattice Lx Ly Lz).rowsX (oldLattice Lx Ly Lz).rowsZ =
+      some (min Lx (Ly * Lz)) :=
+  HollowPlanar3DCode.old_reported_distance (C01HollowPlanar3DCode.wf Lx Ly Lz hLx hLy hLz) hLx
+
+/-- before the repair the reported distance was the true one exactly under a side condition: if
+    `Lx ≤ 2`, `Ly ≤ 2`, `Lz ≤ 2` or `Lx ≤ 2·Ly + 2·Lz − 4` -/
+theorem old_distance_reported (Lx Ly Lz : Nat) (hLx : 1 ≤ Lx) (hLy : 1 ≤ Ly) (hLz : 1 ≤ Lz)
+    (h : Lx ≤ 2 ∨ Ly ≤ 2 ∨ Lz ≤ 2 ∨ Lx ≤ 2 * Ly + 2 * Lz - 4) :
+    ∃ d, Panqec.distance (oldLattice Lx Ly Lz).rowsX (oldLattice Lx Ly Lz).rowsZ = some d ∧
+      IsDistance (nq Lx Ly Lz) (oldLattice Lx Ly Lz).rowsH d := by
+  refine ⟨_, old_reported_distance Lx Ly Lz hLx hLy hLz, ?_⟩
+  rw [oldLattice_rowsH]
   have hd := distance Lx Ly Lz hLx hLy hLz
   by_cases hno : Lx ≤ 2 ∨ Ly ≤ 2 ∨ Lz ≤ 2
   · rw [wZ_nohole Lx Ly Lz hno] at hd; exact hd
@@ -138,20 +182,23 @@ theorem distance_reported (Lx Ly Lz : Nat) (hLx : 1 ≤ Lx) (hLy : 1 ≤ Ly) (hL
     rw [Nat.min_eq_left (by omega)]
     exact hd
 
-/-- **FINDING** (every `Ly, Lz ≥ 3`, `Lx > 2·Ly + 2·Lz − 4`; smallest size `9 × 3 × 3`): what
-    `code.d` reports, `min Lx (Ly·Lz)`, is NOT the code distance — the true distance is
-    `2·Ly + 2·Lz − 4`, strictly smaller (a membrane through the hole is lighter than the listed
-    end plane) -/
-theorem reported_distance_wrong (Lx Ly Lz : Nat) (hLy : 3 ≤ Ly) (hLz : 3 ≤ Lz)
+/-- **FORMER FINDING, repaired** (every `Ly, Lz ≥ 3`, `Lx > 2·Ly + 2·Lz − 4`; smallest size
+    `9 × 3 × 3`): what `code.d` reported before the repair, `min Lx (Ly·Lz)`, is NOT the code
+    distance — the true distance is `2·Ly + 2·Lz − 4`, strictly smaller (a membrane through the
+    hole is lighter than the end plane that was listed) — and it is what `code.d` reports now -/
+theorem old_reported_distance_wrong (Lx Ly Lz : Nat) (hLy : 3 ≤ Ly) (hLz : 3 ≤ Lz)
     (hLx : 2 * Ly + 2 * Lz - 4 < Lx) :
-    Panqec.distance (lattice Lx Ly Lz).rowsX (lattice Lx Ly Lz).rowsZ =
+    Panqec.distance (oldLattice Lx Ly Lz).rowsX (oldLattice Lx Ly Lz).rowsZ =
       some (min Lx (Ly * Lz)) ∧
-    IsDistance (nq Lx Ly Lz) (lattice Lx Ly Lz).rowsH (2 * Ly + 2 * Lz - 4) ∧
+    IsDistance (nq Lx Ly Lz) (oldLattice Lx Ly Lz).rowsH (2 * Ly + 2 * Lz - 4) ∧
     2 * Ly + 2 * Lz - 4 < min Lx (Ly * Lz) ∧
-    ¬ IsDistance (nq Lx Ly Lz) (lattice Lx Ly Lz).rowsH (min Lx (Ly * Lz)) := by
+    ¬ IsDistance (nq Lx Ly Lz) (oldLattice Lx Ly Lz).rowsH (min Lx (Ly * Lz)) ∧
+    Panqec.distance (lattice Lx Ly Lz).rowsX (lattice Lx Ly Lz).rowsZ =
+      some (2 * Ly + 2 * Lz - 4) := by
   have hd := distance Lx Ly Lz (by omega) (by omega) (by omega)
+  have hr := reported_distance Lx Ly Lz (by omega) (by omega) (by omega)
   have hw := wZ_hole Lx Ly Lz (by omega) (by omega) (by omega)
-  rw [hw, Nat.min_eq_right (by omega)] at hd
+  rw [hw, Nat.min_eq_right (by omega)] at hd hr
   have hlt : 2 * Ly + 2 * Lz - 4 < Ly * Lz := by
     obtain ⟨a, rfl⟩ : ∃ a, Ly = a + 3 := ⟨Ly - 3, by omega⟩
     obtain ⟨b, rfl⟩ : ∃ b, Lz = b + 3 := ⟨Lz - 3, by omega⟩
@@ -160,7 +207,8 @@ theorem reported_distance_wrong (Lx Ly Lz : Nat) (hLy : 3 ≤ Ly) (hLz : 3 ≤ L
     rw [this]; omega
   have hlt' : 2 * Ly + 2 * Lz - 4 < min Lx (Ly * Lz) := by
     rw [Nat.lt_min]; exact ⟨hLx, hlt⟩
-  refine ⟨reported_distance Lx Ly Lz (by omega) (by omega) (by omega), hd, hlt', ?_⟩
+  rw [oldLattice_rowsH]
+  refine ⟨old_reported_distance Lx Ly Lz (by omega) (by omega) (by omega), hd, hlt', ?_, hr⟩
   intro hrep
   obtain ⟨v, hv, hwv⟩ := hd.1
   have := hrep.2 v hv
@@ -171,24 +219,33 @@ theorem reported_distance_wrong (Lx Ly Lz : Nat) (hLy : 3 ≤ Ly) (hLz : 3 ≤ L
 /-- no cavity: the planar code, distance `min Lx (Ly·Lz)` -/
 example : IsDistance (nq 2 3 4) (lattice 2 3 4).rowsH 2 :=
   distance 2 3 4 (by decide) (by decide) (by decide)
-/-- a cavity, reported and true distance agree: `4 × 3 × 3` has `d = 4` (`wZ = 8`) -/
+/-- a cavity: `4 × 3 × 3` has `d = 4` (`wZ = 8`) -/
 example : ∃ d, Panqec.distance (lattice 4 3 3).rowsX (lattice 4 3 3).rowsZ = some d ∧
     IsDistance 66 (lattice 4 3 3).rowsH d :=
-  distance_reported 4 3 3 (by decide) (by decide) (by decide) (by decide)
+  distance_reported 4 3 3 (by decide) (by decide) (by decide)
 example : IsDistance 66 (lattice 4 3 3).rowsH 4 :=
   distance 4 3 3 (by decide) (by decide) (by decide)
 /-- the smallest member of the family: one qubit, no generator, distance 1 -/
 example : IsDistance 1 (lattice 1 1 1).rowsH 1 :=
   distance 1 1 1 (by decide) (by decide) (by decide)
-/-- THE FINDING on its smallest instance: `HollowPlanar3DCode(9, 3, 3)` (`n = 146`) reports
-    `d = 9`, the true distance is 8 -/
-example : Panqec.distance (lattice 9 3 3).rowsX (lattice 9 3 3).rowsZ = some 9 ∧
-    IsDistance 146 (lattice 9 3 3).rowsH 8 ∧ ¬ IsDistance 146 (lattice 9 3 3).rowsH 9 := by
-  obtain ⟨h1, h2, _, h4⟩ := reported_distance_wrong 9 3 3 (by decide) (by decide) (by decide)
+/-- the size of the former finding, `HollowPlanar3DCode(9, 3, 3)` (`n = 146`): `code.d = 8` now, the
+    true distance -/
+example : Panqec.distance (lattice 9 3 3).rowsX (lattice 9 3 3).rowsZ = some 8 ∧
+    IsDistance 146 (lattice 9 3 3).rowsH 8 :=
+  ⟨reported_distance_formula 9 3 3 (by decide) (by decide) (by decide),
+   distance 9 3 3 (by decide) (by decide) (by decide)⟩
+/-- THE FORMER FINDING on its smallest instance: before the repair `HollowPlanar3DCode(9, 3, 3)`
+    reported `d = 9`, the true distance is 8 -/
+example : Panqec.distance (oldLattice 9 3 3).rowsX (oldLattice 9 3 3).rowsZ = some 9 ∧
+    IsDistance 146 (oldLattice 9 3 3).rowsH 8 ∧ ¬ IsDistance 146 (oldLattice 9 3 3).rowsH 9 := by
+  obtain ⟨h1, h2, _, h4, _⟩ := old_reported_distance_wrong 9 3 3 (by decide) (by decide) (by decide)
   exact ⟨h1, h2, h4⟩
 /-- the light membrane of `9 × 3 × 3`: the 8 x-edges `(3, y, z)` around the hole -/
 example : crossX 9 3 3 1 =
     [[3, 0, 0], [3, 0, 2], [3, 0, 4], [3, 2, 0], [3, 2, 4], [3, 4, 0], [3, 4, 2], [3, 4, 4]] := by
+  decide +kernel
+/-- … is what `get_logicals_z` lists now, and the end plane `x = 1` (9 x-edges) what it listed -/
+example : logZ 9 3 3 = [uop (crossX 9 3 3 1) Pauli.Z] ∧ (oldLogZ 9 3 3).map List.length = [9] := by
   decide +kernel
 example : wZ 9 3 3 = 8 ∧ wZ 2 3 3 = 9 ∧ wZ 5 2 4 = 8 ∧ wZ 11 3 4 = 10 := by decide
 /-- the hypothesis of `lower_bound` is satisfiable: the light membrane is a non-trivial logical -/
@@ -196,7 +253,7 @@ example : IsNontrivialLogical (nq 3 3 3) (lattice 3 3 3).rowsH
     (opRow (lattice 3 3 3).qubits (uop (crossX 3 3 3 1) Pauli.Z)) :=
   (light_membrane 3 3 3 (by decide) (by decide) (by decide)).1
 example : (lattice 4 3 3).rowsX.map pauliWeight = [4] ∧
-    (lattice 4 3 3).rowsZ.map pauliWeight = [9] :=
+    (lattice 4 3 3).rowsZ.map pauliWeight = [8] :=
   weights_listed 4 3 3 (by decide) (by decide) (by decide)
 
 end Panqec.C17HollowPlanar3DCode
